@@ -29,7 +29,7 @@
    generator on every generated text, the code-emission limits (jump/loop/constant-pool sizes). *)
 From Coq Require Import List NArith Arith Lia.
 From YVGen Require Import Consts Rules Tokens.
-From YV Require Import Utf8 Ast Scanner ScannerProofs ParserRules Parser ParseRun ParserProofs C03Run TotalityProofs FuelProofs.
+From YV Require Import Utf8 Ast Scanner ScannerProofs ParserRules Parser ParseRun ParserProofs C03Run TotalityProofs FuelProofs ParserInv.
 Import ListNotations.
 
 (* ---------- the tables of the model are the tables of the current source ---------- *)
@@ -138,6 +138,14 @@ Theorem C03_parse_source_decides : forall src,
   (exists p, parse_source src = POk p) \/ (exists l a m, parse_source src = PErr l a m /\ (1 <= l)%N).
 Proof. exact parse_source_decides. Qed.
 
+(* parser-wide token-line invariant (ParserInv.v): the first error carries the line / lexeme of an input token *)
+Theorem C03_first_error_line_good : forall (good : N -> Prop) toks l a m,
+  toks <> [] -> Forall (fun t => good (tline t)) toks -> parse_program toks = PErr l a m -> good l.
+Proof. exact parse_error_line_good. Qed.
+Theorem C03_first_error_at_token : forall toks l a m,
+  toks <> [] -> parse_program toks = PErr l a m -> err_from toks l a m.
+Proof. exact parse_error_at_token_tokens. Qed.
+
 Print Assumptions C03_rules_known.
 Print Assumptions C03_rules_table.
 Print Assumptions C03_rules_length.
@@ -165,3 +173,5 @@ Print Assumptions C03_parse_fuel_bound.
 Print Assumptions C03_parse_fuel_monotone.
 Print Assumptions C03_parse_fuel_independent.
 Print Assumptions C03_parse_source_decides.
+Print Assumptions C03_first_error_line_good.
+Print Assumptions C03_first_error_at_token.
